@@ -5,6 +5,45 @@
 (* calls outside the domain yields <<"SKIP", reason>>.                                                          *)
 EXTENDS Props, MLString, Toggle
 
+TokText(s, st, t, i) == SubSeq(s, st[i], st[i] + t[i][2] - 1)
+TokText0(s, st, t, i) == SubSeq(s, st[i], st[i] + t[i][2] - 1)
+
+\* equality of two multi-line literals up to re-indentation (C02 / C12)
+MLEq(a, b) == Qualifies(a) /\ Qualifies(b) /\ Value(a) = Value(b) /\ SplitLines(a)[1] = SplitLines(b)[1]
+
+\* C07: the regions the specification computes from the scanned input (toggle comments), as sets of token indices,
+\* must be exactly the tokens the formatter treats as verbatim - except asm instruction lines
+ToggleMarksOf(r) ==
+  LET st == TokStarts(r.tin)
+      tg == [i \in 1..Len(r.tin) |-> IF r.tin[i][3] \in CommentKinds THEN ToggleOf(TokText0(r.in, st, r.tin, i)) ELSE "none"]
+  IN Marks(tg)
+
+\* C12 on the k-th multi-line literal of input and output
+MLIdx(t) == SelectSeq([i \in 1..Len(t) |-> i], LAMBDA i : t[i][3] = "TextLiteral(MultiLine)")
+
+C12_Violations(r) ==
+  LET ia == MLIdx(r.tin)  ib == MLIdx(r.tout)
+      ta == TokTexts(r.in, r.tin)  tb == TokTexts(r.out, r.tout)
+      marks == ToggleMarksOf(r)
+      nl == NLof(r)
+      sb == TokStarts(r.tout)
+  IN IF Len(ia) # Len(ib) THEN (IF Len(ia) > 0 THEN {"literal_count"} ELSE {})
+     ELSE UNION {
+       LET x == ta[ia[k]]  y == tb[ib[k]] IN
+       IF ~(Qualifies(x) /\ r.cfg.fms) \/ marks[ia[k]] THEN (IF x # y THEN {"verbatim"} ELSE {})
+       ELSE IF ~(Qualifies(y) /\ Value(y) = Value(x)) THEN {"value"}
+       ELSE (IF ForeignBreak(y, nl) THEN {"terminators"} ELSE {})
+            \cup (LET pos == sb[ib[k]]
+                      ls == LineStartOf(r.out, pos)
+                      ind == SubSeq(r.out, ls, pos - 1)
+                      lines == SplitLines(y)
+                  IN IF (\A q \in 1..Len(ind) : ind[q] \in {SPACE, TAB})
+                        /\ \E j \in 2..Len(lines) :
+                             IF j = Len(lines) THEN ~(IsPrefix(ind, lines[j]) /\ AllQuotes(SubSeq(lines[j], Len(ind) + 1, Len(lines[j]))))
+                             ELSE ~(lines[j] = <<>> \/ IsPrefix(ind, lines[j]))
+                     THEN {"indentation"} ELSE {})
+       : k \in 1..Len(ia)}
+
 SameCfgExcept(a, b, field) ==
   \A f \in {"wrap", "always_wrap", "fms", "tabs", "tw", "ci", "crlf"} : f # field => a.cfg[f] = b.cfg[f]
 
@@ -26,7 +65,6 @@ CrlfOf(s) == CrlfOfAcc(s, 1, <<>>)
 HasCR(s) == \E k \in 1..Len(s) : s[k] = CR
 HasTab(s) == \E k \in 1..Len(s) : s[k] = TAB
 
-TokText(s, st, t, i) == SubSeq(s, st[i], st[i] + t[i][2] - 1)
 
 \* C09 precondition: no line-spanning token that is kept verbatim
 NoVerbatimLineSpanning(r) ==
@@ -38,16 +76,15 @@ NoVerbatimLineSpanning(r) ==
     /\ (\E k \in 1..Len(text) : text[k] \in {LF, CR}) =>
          (kind = "TextLiteral(MultiLine)" /\ r.cfg.fms /\ Qualifies(text))
 
-\* lines of a text (split at LF; a trailing CR belongs to the terminator)
-RECURSIVE LineLensAcc(_, _, _, _)
-LineLensAcc(s, p, cur, acc) ==
-  IF p > Len(s) THEN Append(acc, cur)
-  ELSE IF s[p] = LF THEN LineLensAcc(s, p + 1, 0, Append(acc, cur))
-  ELSE IF s[p] = CR /\ At(s, p + 1) = LF THEN LineLensAcc(s, p + 1, cur, acc)
-  ELSE LineLensAcc(s, p + 1, cur + 1, acc)
-LineLens(s) == LineLensAcc(s, 1, 0, <<>>)
-MaxLineLen(s) == LET ll == LineLens(s) IN CHOOSE m \in RangeOf(ll) : \A x \in RangeOf(ll) : x <= m
-LineCount(s) == Len(LineLens(s))
+\* lines of a text (split at LF; a CR directly before the LF belongs to the terminator) - set-based, no recursion
+LFPos(s) == {k \in 1..Len(s) : s[k] = LF}
+LineCount(s) == Cardinality(LFPos(s)) + 1
+SetMax(S) == CHOOSE m \in S : \A x \in S : x <= m
+LineLenEndingAt(s, lfs, e) ==
+  LET prev == {j \in lfs : j < e}
+      st == IF prev = {} THEN 1 ELSE SetMax(prev) + 1
+  IN (e - st) - (IF e \in lfs /\ e - 1 >= st /\ s[e - 1] = CR THEN 1 ELSE 0)
+MaxLineLen(s) == LET lfs == LFPos(s) IN SetMax({LineLenEndingAt(s, lfs, e) : e \in lfs \cup {Len(s) + 1}})
 
 \* replace every leading tab of every line by tw spaces
 RECURSIVE ExpandTabsAcc(_, _, _, _, _)
@@ -58,6 +95,22 @@ ExpandTabsAcc(s, p, atStart, tw, acc) ==
 ExpandLeadingTabs(s, tw) == ExpandTabsAcc(s, 1, TRUE, tw, <<>>)
 
 INF == 1000000
+
+\* C06: b.in is a re-layout of a.in - the same tokens, every gap that touches a comment or directive identical, blank-line
+\* groups kept (a gap holds a blank line in one text iff it does in the other); all other gaps are free.
+CountLF(g) == Cardinality({k \in 1..Len(g) : g[k] = LF})
+IsRelayout(a, b) ==
+  /\ Len(a.tin) = Len(b.tin)
+  /\ LET sa == TokStarts(a.tin)  sb == TokStarts(b.tin)
+         special(t, i) == i >= 1 /\ i <= Len(t) /\ (t[i][3] \in CommentKinds \/ t[i][3] \in DirectiveKinds)
+     IN \A i \in 1..Len(a.tin) :
+          /\ a.tin[i][3] = b.tin[i][3]
+          /\ TokText(a.in, sa, a.tin, i) = TokText(b.in, sb, b.tin, i)
+          /\ LET ga == SubSeq(a.in, sa[i] - a.tin[i][1], sa[i] - 1)
+                 gb == SubSeq(b.in, sb[i] - b.tin[i][1], sb[i] - 1)
+             IN IF special(a.tin, i) \/ special(a.tin, i - 1) THEN ga = gb
+                ELSE IF a.tin[i][3] = "Eof" THEN TRUE
+                ELSE (CountLF(ga) >= 2) = (CountLF(gb) >= 2)
 
 RelViolations(rel, a, b) ==
   IF ~a.ok \/ ~b.ok THEN {<<"SKIP", "a call did not return">>}
@@ -86,6 +139,9 @@ RelViolations(rel, a, b) ==
     [] rel = "cursor" ->
          IF ~(a.in = b.in /\ SameCfgExcept(a, b, "none") /\ "cur" \notin DOMAIN a) THEN {<<"SKIP", "cursor precondition">>}
          ELSE IF a.out # b.out THEN {<<"C15", "text_unchanged">>} ELSE {}
+    [] rel = "relayout" ->
+         IF ~(a.wf /\ SameCfgExcept(a, b, "none") /\ IsRelayout(a, b)) THEN {<<"SKIP", "relayout precondition">>}
+         ELSE IF a.out # b.out THEN {<<"C06", "layout_independent">>} ELSE {}
     [] rel = "same" ->      \* C06 / C18 / C19: two calls that must give the same output (precondition established by the generator and re-checked by its own monitor)
          IF a.out # b.out THEN {<<"SAME", "outputs_differ">>} ELSE {}
     [] OTHER -> {<<"SKIP", "unknown relation">>}
